@@ -80,6 +80,13 @@ CHECKS["C11"] = dict(
     ref="5/C11",
 )
 
+CHECKS["C12"] = dict(
+    technique="TLA+ Type 2 / CFF2 charstring machine (T2Sem.tla, from Adobe TN 5177 and the CFF2 charstring chapter) model-checked; TLC-exported and grammar-generated programs and every corpus charstring pushed through the real rewritings, original and rewritten program interpreted by TLC on both sides (Run + Canon, stack limit, arities)",
+    text="TLC model-checks the charstring machine's own laws on every program of a builder machine (every operator in every argument-count form, width prefix, hints and masks, flex, subroutine calls, blends; run-structured long programs crossing maxstack) and exports the programs; they, seeded grammar-generated programs (fractional operands, encoding-boundary values, CFF2 blends, subroutine cuts), fonts built from them and every charstring of every CFF/CFF2 corpus font go through the real generalize / specialize (with and without preserveTopology, several maxstack values) / compile-decompile / desubroutinize / subroutinize / remove_hints / CFF->CFF2 / CFF2->CFF / optimizeWidths / T2CharStringPen; TLC interprets both programs and requires the same canonical path (exact point structure under preserveTopology), the same advance width, a final endchar where the format has one, and the operand-stack limit and operator arities of the output format at every step.",
+    note="Trusted: TLC, the transcription of the Type 2 machine (checked by MC_T2Sem), token marshalling of 16.16 operands as scaled integers. Canon licenses exactly: degenerate curve -> line, zero-length segments dropped, collinear axis-parallel lines summed, lone moves dropped. Corpus master TTX files with ill-formed CFF2 programs are skipped and counted.",
+    ref="5/C12",
+)
+
 NOT_YET = "check not built yet in this round (see DESIGN.md section 10 for the build order)"
 
 
